@@ -355,6 +355,12 @@ def binop(interp, op, l: V, r: V, node=None) -> Optional[V]:
         l = Term("attr." + l.name, [l.recv])
     if isinstance(r, BoundExt):
         r = Term("attr." + r.name, [r.recv])
+    # filtered index arrays (np.nonzero idiom) and their column views
+    from . import farray as _fa
+    if _fa.is_farray(l) or _fa.is_farray(r) or (isinstance(l, Term) and l.op == "colvec") or (isinstance(r, Term) and r.op == "colvec"):
+        fr = _fa.binop(interp, op, l, r, node)
+        if fr is not None:
+            return fr
     # python list algebra
     if isinstance(l, ListV) and isinstance(r, ListV) and isinstance(op, ast.Add):
         out = interp.new_list(copy_items(l.items) + copy_items(r.items), l.kind)
@@ -606,6 +612,19 @@ def ndarray_value(interp, o: ObjV) -> V:
 
 # ---------------------------------------------------------------------------------------------------------------------
 def subscript(interp, base: V, idx: V, node) -> Optional[V]:
+    from . import farray as _fa
+    if _fa.is_farray(base) and base.kind == "array" and isinstance(idx, TupleV) and len(idx.items) == 2:
+        a, b = idx.items
+        full = lambda x: isinstance(x, Term) and x.op == "slice" and all(isinstance(y, Const) and y.v is None for y in x.args)
+        newax = lambda x: (isinstance(x, Const) and x.v is None) or (isinstance(x, ExtV) and x.dotted == "numpy.newaxis")
+        if full(a) and newax(b):
+            return Term("colvec", [base])
+    if isinstance(base, ObjV) and base.ext == "ndarray" and isinstance(idx, TupleV) and len(idx.items) == 2 and all(_fa.is_farray(x) for x in idx.items):
+        base = ndarray_value(interp, base)
+    if isinstance(base, Grid) and isinstance(idx, TupleV) and len(idx.items) == 2 and all(_fa.is_farray(x) for x in idx.items):
+        fr = _fa.fancy2(interp, base, idx.items[0], idx.items[1])
+        if fr is not None:
+            return fr
     if isinstance(base, Grid):
         return grid_subscript(interp, base, idx, node)
     if isinstance(base, ListV):
@@ -1110,6 +1129,14 @@ def call_ext(interp, dotted: str, args: List[V], kwargs: Dict[str, V], node, cc)
         if len(args) == 1:
             return TupleV([Term("nonzero_indices", [args[0]])])
         return None
+    if d == "numpy.nonzero" and args:
+        from . import farray as _fa
+        a0 = args[0]
+        if isinstance(a0, ObjV) and a0.ext == "ndarray":
+            a0 = ndarray_value(interp, a0)
+        fz = _fa.nonzero(interp, a0) if isinstance(a0, Grid) and a0.ndim == 2 else None
+        if fz is not None:
+            return fz
     if d in ("numpy.nonzero", "numpy.flatnonzero", "numpy.argwhere"):
         t = Term("nonzero_indices", [args[0]])
         return TupleV([t]) if d == "numpy.nonzero" else t
@@ -1183,6 +1210,11 @@ def call_ext(interp, dotted: str, args: List[V], kwargs: Dict[str, V], node, cc)
     if d == "numpy.repeat":
         x = args[0]
         reps = args[1] if len(args) > 1 else kwargs.get("repeats")
+        from . import farray as _fa
+        if _fa.is_farray(x) and _axis(kwargs, args, 2) is None:
+            fr = _fa.repeat(interp, x, reps)
+            if fr is not None:
+                return fr
         ax = _axis(kwargs, args, 2)
         g = to_grid(interp, x) if not isinstance(x, Grid) else x
         if g is None or not isinstance(reps, Num):
@@ -1248,6 +1280,13 @@ def call_ext(interp, dotted: str, args: List[V], kwargs: Dict[str, V], node, cc)
                       TupleV([Num(ext - 1), Num(1), Num(e(ext - 1) - e(ext - 2))])]
             return Grid(g.dims, Term("piecewise", pieces, {"idx": Num(i)}))
         return Top("numpy.gradient of a value that is not a plain 1-D sequence")
+    if d == "numpy.broadcast_to" and len(args) == 2:
+        from . import farray as _fa
+        shp = args[1]
+        if _fa.is_farray(args[0]) and args[0].kind == "array" and isinstance(shp, TupleV) and len(shp.items) == 2 and isinstance(shp.items[0], Num):
+            # rows of the result are copies of the array: the NEW axis is the outer one
+            return Term("bcast_rows", [args[0], shp.items[0]])
+        return Term("broadcast_to", args, kwargs)
     if d == "numpy.sort":
         return Term("sort", args, kwargs)
     if d == "numpy.unique":
@@ -1608,6 +1647,16 @@ def _isinstance(interp, v, t):
 
 # ---------------------------------------------------------------------------------------------------------------------
 def call_method(interp, recv: V, name: str, args, kwargs, node, cc) -> Optional[V]:
+    from . import farray as _fa
+    if _fa.is_farray(recv) and name in ("ravel", "flatten", "copy", "astype", "tolist"):
+        if name in ("copy", "astype"):
+            return recv
+        fr = _fa.ravel(interp, recv)
+        if fr is not None:
+            return fr
+    if isinstance(recv, Term) and recv.op == "bcast_rows" and name in ("ravel", "flatten"):
+        p_ = interp.fresh_idx("p")
+        return _fa.mk([Loop(p_, recv.args[1].p, copy_items(recv.args[0].items))])
     if isinstance(recv, ListV):
         return list_method(interp, recv, name, args, kwargs, node)
     if name in ("argmin", "argmax", "argsort") and isinstance(recv, (Grid, Term)) and not (isinstance(recv, Term) and recv.op == "sparse"):
